@@ -185,7 +185,7 @@ def applicable_faults(case: Dict[str, Any]) -> Dict[str, List[Any]]:
 
 
 @st.composite
-def strategy_case(draw: Any) -> Dict[str, Any]:
+def strategy_case(draw: Any, one_shot_weight: int = 1) -> Dict[str, Any]:
     base = draw(filegen.file_case(countries=cli.COUNTRIES, hist=HIST, windows=False, schedules=False, flavours=("mixed", "mixed", "mixed", "buy_only", "income_only", "transfer_heavy")))
     base["schedule"] = None
     base["from"] = base["to"] = None
@@ -196,7 +196,7 @@ def strategy_case(draw: Any) -> Dict[str, Any]:
     # and every class is expected several times per quick run.  Classes that apply at several positions (row-level faults:
     # whether they are noticed can depend on the row, e.g. only rows that later take part in a gain/loss pairing) count double.
     # The position and the base input stay plain draws.
-    weighted = [k for k in sorted(faults) for _ in range(2 if len(faults[k]) > 1 else 1)]
+    weighted = [k for k in sorted(faults) for _ in range(2 if len(faults[k]) > 1 else one_shot_weight)]
     kind = weighted[case_hash(base) % len(weighted)]
     position = draw(st.sampled_from(faults[kind]))
     base["fault"] = {"kind": kind, "position": list(position) if isinstance(position, tuple) else position, "variant": draw(st.integers(0, 5))}
